@@ -54,10 +54,10 @@ func stress(en *tl.Engine) {
 	small, big := reps(en, 300, 3000), reps(en, 60, 800)
 	for i := 0; i < small; i++ {
 		n, q := 1+en.Rng.Intn(3), en.Rng.Intn(3)
-		en.Stress(n, q, tl.StressOpt{PanicPct: 0, Observers: 0, SleepTasks: true, CancelMode: 1}, i)
+		en.Stress(n, q, tl.StressOpt{PanicPct: 0, Observers: 0, SleepTasks: true, CancelMode: 1, Kinds: true}, i)
 	}
 	for i := 0; i < big; i++ {
 		n, q := 1+en.Rng.Intn(4), en.Rng.Intn(4)
-		en.Stress(n, q, tl.StressOpt{Big: true, PanicPct: 5, Observers: 0, SleepTasks: true, CancelMode: 0}, i)
+		en.Stress(n, q, tl.StressOpt{Big: true, PanicPct: 5, Observers: 0, SleepTasks: true, CancelMode: 0, Kinds: true}, i)
 	}
 }
